@@ -184,6 +184,13 @@ func init() {
 		types: map[string]string{"context.Context": "Ctx", "time.Time": "GoTime", "time.Duration": "Dur", "error": "Err", "bool": "Bool", "int64": "Int",
 			"func(context.Context) error": "RunFn", "func()": "Fn0"},
 	}
+	// K6 for the fallback's bulkhead (C04, C06): `fallback` once more, over interference primitives on the Conc/Gauge state
+	units["GoFbI"] = &unit{
+		name: "GoFbI", file: "circuit.go", recv: "Circuit", funcs: []string{"now", "fallback"},
+		imports: []string{"CircuitModel.GoFbConcPrims"}, open: []string{"CM", "CM.Go", "CM.GoFbI"}, vars: "", monad: "FM",
+		types: map[string]string{"context.Context": "Ctx", "time.Time": "GoTime", "time.Duration": "Dur", "error": "Err", "bool": "Bool", "int64": "Int",
+			"func(context.Context, error) error": "FbFn"},
+	}
 	never := []string{"Success", "ErrFailure", "ErrTimeout", "ErrBadRequest", "ErrInterrupt", "ErrConcurrencyLimitReject", "ErrShortCircuit", "Opened", "Closed"}
 	units["GoNeverOpens"] = &unit{name: "GoNeverOpens", file: "closers.go", recv: "neverOpens", funcs: append([]string{"Prevent", "ShouldOpen"}, never...),
 		imports: []string{"CircuitModel.GoLiveLogicPrims"}, open: []string{"CM", "CM.Go", "CM.GoNever"}, vars: "", monad: "NM", types: consumerTypes}
